@@ -37,7 +37,7 @@ trusted = ["hand-written model MptModel/Impl/Reply.lean tied to mptcore/message/
 
 
 def corpus(chk):
-    return gen.corpus(id)
+    return [(n, s) for n, s in gen.corpus(id) if not (s and s[0].startswith("xr "))]
 
 
 def be(n, w):
@@ -104,6 +104,19 @@ def scripts(tier, seed, scale=1):
                     lines.append("c req %s %s" % ((idh + ["7a", "", "6100", "00"][k % 4]) or "-", ",".join(seq)))
                 lines += ["c dreply 0 4444", "c dreply 0 none", "c dreply 1 none", "c dreply 2 -", "c close", "c dreply 3 46", "c dreply 4 none", "c req 0001 ret:0"]
                 out.append(("c:%d/%s" % (w, "+".join(a.replace(":", "") for a in seq)), lines))
+    # requester side of the C connection: requests with fresh ids, the peer's answers (ids with the mark) in every order
+    def mk(w, i):
+        return gen.hexs(list((i | (1 << (8 * w - 1))).to_bytes(w, "big"))) if w else ""
+    for w in (1, 2, 4, 9):
+        for n in (1, 2, 3):
+            for order in itertools.product(range(1, n + 2), repeat=min(n + 1, 3)):
+                lines = ["c open %d" % w]
+                for k in range(n):
+                    lines += ["c await %d" % (10 + k), "c send %02x" % (0x61 + k)]
+                for j, i in enumerate(order):
+                    lines.append("c req %s%02x ret:0" % (mk(w, i), 0x41 + j))
+                lines += ["c await 20", "c await 21", "c send 7a", "c req %s55 reply:41" % mk(w, n + 1), "c req %s01%s reply:4142" % ("00" * (w - 1), ""), "c close"]
+                out.append(("cr:%d/%d/%s" % (w, n, "".join(map(str, order))), lines))
     out.append(("s:long", ["s open 2", "s req 0007" + "61" * 300 + " reply:" + "62" * 300, "s req 0008" + "00" * 40 + " ret:-1", "s close",
                            "s open 256", "s open 255", "s req " + "01" * 255 + "63 replynull,replynull", "s close", "s close", "s req 00 ret:0"]))
     # random histories
@@ -144,6 +157,92 @@ def scripts(tier, seed, scale=1):
         lines += CLOSE
         out.append(("rnd:%d" % k, lines))
     return out
+
+
+class _XX:
+    """second part: the C++ requester side, mpt++/io_stream.cpp (await / push / dispatch / sync) through
+    harness/drvxx_reply.cpp, the driver being the answering peer on a socketpair"""
+    id = "C12"
+    area = "reply"
+    driver = "drvxx_reply"
+    cxx = True
+    fixed_lines = 1
+    link_extra = ["-fno-sanitize=vptr"]
+
+    @staticmethod
+    def corpus(chk):
+        return [(n, s) for n, s in gen.corpus(id) if s and s[0].startswith("xr ")]
+
+    @staticmethod
+    def scripts(tier, seed, scale=1):
+        out = []
+
+        def mk(w, i):
+            return gen.hexs(list((i | (1 << (8 * w - 1))).to_bytes(w, "big"))) if w else ""
+        # exhaustive: up to 3 requests in flight, every order of answering (incl. duplicates and unknown ids),
+        # through dispatch and through sync, header widths 1, 2, 8
+        for w in (1, 2, 8):
+            for n in (1, 2, 3):
+                for order in itertools.product(range(1, n + 2), repeat=min(n + 1, 3)):
+                    for via in ("answer", "sync", "mixed"):
+                        lines = ["xr open %d" % w]
+                        for k in range(n):
+                            lines += ["xr await %d" % (10 + k), "xr send %02x" % (0x61 + k)]
+                        for j, i in enumerate(order):
+                            op = via if via != "mixed" else ("sync" if j % 2 else "answer")
+                            lines.append("xr %s %s%02x" % (op, mk(w, i), 0x41 + j))
+                        lines += ["xr await 20", "xr send 7a", "xr answer %s55,%s56" % (mk(w, 1), mk(w, n + 1)), "xr close"]
+                        out.append(("xr:%d/%d/%s/%s" % (w, n, "".join(map(str, order)), via), lines))
+        out.append(("xr:idlen", ["xr open 0", "xr idlen 2", "xr await 3", "xr send 61", "xr answer 800141", "xr idlen 128", "xr idlen 129",
+                                 "xr idlen 1", "xr await 4", "xr send 62", "xr answer 8242,8142", "xr idlen 0", "xr await 5", "xr close"]))
+        out.append(("xr:misc", ["xr open 0", "xr await 1", "xr send 6162", "xr answer 6364", "xr sync 65", "xr close",
+                                "xr open 2", "xr send 61", "xr answer 000568,00006a", "xr await 5", "xr abort", "xr send 62",
+                                "xr sync 80014141,000177,80014242", "xr answer 8001", "xr close", "xr await 1", "xr open 256", "xr open x"]))
+        # id space of a one-byte header: 127 requests, then ids are reused only when free
+        lines = ["xr open 1"]
+        for k in range(130):
+            lines += ["xr await %d" % k, "xr send -"]
+            if k % 3 == 0:
+                lines.append("xr answer %02x" % (0x80 | ((k % 127) + 1)))
+        lines += ["xr sync 81,82,83", "xr await 500", "xr send 61", "xr close"]
+        out.append(("xr:idspace", lines))
+        r = gen.rng(id, tier, seed, "xr-random")
+        for k in range((300 if tier == "quick" else 4000) * scale):
+            w = r.choice([1, 2, 2, 3, 8, 9])
+            lines = ["xr open %d" % w]
+            nreq = 0
+            for _ in range(r.choice([5, 10, 20])):
+                kind = r.choice(["req", "req", "answer", "answer", "sync", "ev", "send", "bad"])
+                if kind == "req":
+                    nreq += 1
+                    lines += ["xr await %d" % r.randrange(100), "xr send " + gen.hexs([r.randrange(256) for _ in range(r.choice([0, 1, 3]))])]
+                elif kind in ("answer", "sync"):
+                    fs = []
+                    for _ in range(r.choice([1, 1, 2, 3])):
+                        i = r.choice([1, 2, 3, nreq, nreq + 1, r.randrange(1, 6)])
+                        fs.append(mk(w, i) + gen.hexs([r.randrange(256) for _ in range(r.choice([0, 1, 2]))]).replace("-", ""))
+                    lines.append("xr %s %s" % (kind, ",".join(fs)))
+                elif kind == "ev":
+                    lines.append("xr answer " + gen.hexs([0] * (w - 1) + [r.choice([0, 5])] + [r.randrange(256)]))
+                elif kind == "send":
+                    lines.append("xr send 61")
+                else:
+                    lines.append(r.choice(["xr await", "xr await x", "xr send", "xr answer", "xr answer 80", "xr sync ,", "xr frob", "xr answer zz"]))
+            lines.append("xr close")
+            out.append(("xrrnd:%d" % k, lines))
+        return out
+
+    @staticmethod
+    def nontrivial(script, c_lines):
+        # at least two requests were outstanding and a reply was routed to a handler
+        waiting2 = any("waiting=2" in ln or "waiting=3" in ln for ln in c_lines)
+        return waiting2 and any(ln.startswith("R ok") and "| C h" in ln and "(none)" not in ln for ln in c_lines)
+
+    tally = staticmethod(lambda chk, script, c_lines: tally(chk, script, c_lines))
+    finding_key = staticmethod(lambda script, res: finding_key(script, res))
+
+
+extra_parts = [_XX]
 
 
 def nontrivial(script, c_lines):
